@@ -594,7 +594,7 @@ def _const_values(ctx, b, tr, op, depth=0):
                 return 'a caller (%s) passes a non-constant value (%s)' % (cb.path, r)
             vals += r
         return vals if n else 'no call sites found'
-    if o['o'] in ('call', 'rvalue') and not o['p'] and o.get('l') is not None:
+    if o['o'] in ('call', 'rvalue') and not [e for e in o['p'] if e not in ('ref', 'deref')] and o.get('l') is not None:
         # a value computed by a (spliced) helper or a workspace function: evaluate that function symbolically; if every
         # path returns a number, those are the values
         hp = b.locals[o['l']].get('inl')
@@ -1405,7 +1405,8 @@ def _r3(ctx, oa):
                     # true edge increments, false edge resets
                     tt, ft = t['otherwise'], [x[1] for x in t['arms'] if x[0] == '0'][0]
                     inc_blocks = cfg.reachable_from([tt], avoid={ft}) & region
-                    rst = [dd for dd in defs.of(counter) if dd[0] in (cfg.reachable_from([ft], avoid={tt}) & region)
+                    # (the reset may sit in a block shared with the no-threshold path: `_ => { count = 0; false }`)
+                    rst = [dd for dd in defs.of(counter) if dd[0] in (cfg.reachable_from([ft], avoid={tt, hdr}) & (region | none_reach))
                            and dd[3]['r'] == 'use' and dd[3]['a'].get('k') == 'const' and const_value(dd[3]['a']) == 0]
                     inc = [dd for dd in defs.of(counter) if dd[0] in inc_blocks and
                            ((dd[3]['r'] == 'use' and dd[3]['a'].get('k') == 'move') or _is_incr(dd[3], counter))]
